@@ -270,17 +270,19 @@ def run_longrefs(c):
     return {"bad": [[int(k), float(got[k]), float(want[k])] for k in bad[:3]], "n_bad": int(len(bad)), "intervals": int(m - 1)}
 
 
-XDTYPES = [("uint16", 2 ** 16), ("uint32", 2 ** 32), ("uint64", 2 ** 64), ("int32", 2 ** 31), ("int16", 2 ** 15), ("uint8", 2 ** 8)]
+# (dtype, one more than the largest value used); 64-bit: values up to 2**40 only - the case travels as doubles and sums of abscissae must stay far from the 53 bits of a double
+XDTYPES = [("uint16", 2 ** 16), ("uint32", 2 ** 32), ("uint64", 2 ** 40), ("int32", 2 ** 31), ("int16", 2 ** 15), ("uint8", 2 ** 8),
+           ("int64", 2 ** 40)]
 
 
 def integer_abscissae(c, rng):
-    """the same case on integer abscissae held in a narrow / unsigned NumPy dtype (tick counters, epoch seconds in
-    uint32, sample numbers in uint16): the abscissae of the series, of the reference and the designated fixed points go
-    through one affine map that makes them non-negative whole numbers, far inside the dtype's range (four times the
-    largest abscissa still fits: the library itself adds the two ends of an interval before halving).  The numbers the
-    model sees are the mapped ones; only the container differs.  Differences of unsigned values that are negative in
-    exact arithmetic wrap around silently in NumPy, so an expression that is equal to the documented one over the reals
-    need not be equal on such input."""
+    """the same case on integer abscissae held in a narrow / unsigned NumPy dtype (tick counters, sample numbers in
+    uint16, epoch seconds in int32 / uint32): the abscissae of the series, of the reference and the designated fixed
+    points go through one affine map that makes them whole numbers of the dtype - half of the time at the bottom of its
+    range, half of the time at the top (every sample fits; the sum of two samples does not: epoch seconds of today in
+    int32).  The numbers the model sees are the mapped ones; only the container differs.  Integer arithmetic in NumPy
+    wraps around silently, so an expression that is equal to the documented one over the reals need not be equal on
+    such input."""
     from math import lcm
     keys = [k for k in ("x", "xref", "fpx") if c.get(k)]
     allv = [Fraction(v) for k in keys for v in c[k]]
@@ -290,15 +292,16 @@ def integer_abscissae(c, rng):
     for v in allv:
         m = lcm(m, v.denominator)
     lo = min(allv)
-    off = rng.choice([0, 0, 1, 3, 17])
-    top = (max(allv) - lo) * m + off
-    fits = [(n, cap) for n, cap in XDTYPES if 4 * top < cap]
+    top = (max(allv) - lo) * m
+    fits = [(n, cap) for n, cap in XDTYPES if top + 20 < cap]
     if m > 2 ** 12 or not fits:
         return c
+    name, cap = rng.choice(fits)
+    off = rng.choice([0, 0, 1, 3, 17]) if rng.random() < 0.5 else cap - 1 - int(top) - rng.choice([0, 0, 1, 5])
     c = dict(c)
     for k in keys:
         c[k] = [str((Fraction(v) - lo) * m + off) for v in c[k]]
-    c["xdtype"] = rng.choice(fits)[0]
+    c["xdtype"] = name
     return c
 
 
